@@ -155,6 +155,14 @@ func one(c *Case, r *mon.Rec, fr specref.Framing, q specref.Req, what string, va
 		if fn := req.FunctionCode(); fn != q.FC {
 			r.Violate(c, "functioncode-differs", mon.Attrs{"fc": int(q.FC), "framing": fr.String()}, fmt.Sprint(fn))
 		}
+		// the header has an exported ProtocolID field; Modbus has one protocol id, whatever a caller left in that field
+		// (value%8: a few per sweep are enough)
+		if fr == specref.TCP && value%8 == 0 && libx.SetProtocolID(req, uint16(1+value%65535)) {
+			if g2 := req.Bytes(); len(g2) >= 4 && (g2[2] != 0 || g2[3] != 0) {
+				r.Violate(c, "protocol-id-not-zero", mon.Attrs{"fc": int(q.FC)}, fmt.Sprintf("request with MBAPHeader.ProtocolID=%d encodes as % x", 1+value%65535, head(g2, 12)))
+			}
+			r.Cover("protocol-id-field-set", "tcp")
+		}
 	}
 }
 
